@@ -278,6 +278,9 @@ func (c *Ctx) contractCall(fr *Frame, st *State, site ssa.Instruction, fn *ssa.F
 	// frame
 	if con.AssignsAll {
 		kept := c.keptLeaves(con)
+		if c.dry > 0 && c.wr != nil {
+			c.wr.noteKeeps(kept)
+		}
 		var keepTerms []string
 		for _, k := range kept {
 			keepTerms = append(keepTerms, c.H(st, k[0], k[1]))
